@@ -22,6 +22,8 @@ fixed("C07", "4eb6543", "BorrowMutError panic: LocalSpan::with_properties / Loca
 fixed("C07", "ab07ac6", "debug assertion `token.is_some()` failed in LocalParentGuard::drop for a scope opened beyond the 4096-scope limit (C07-scopes programs)")
 fixed("C07", "7d7d7a3", "panic 'cannot access a Thread Local Storage value during or after destruction' from Span::root / SpanContext::random / TraceId::random / SpanId::random / the first local span of a thread when called from a thread-local destructor that runs after rand's thread-local generator was destroyed (C07-teardown programs)")
 fixed("C15", "6de71ac", "side effects lost: #[trace] on a plain function whose tail expression is Box::pin(async move { .. }) took the function for async-trait output and replaced the whole body by the instrumented pinned future; every statement before the tail was dropped (twin `boxed_move`: log 'setup:0' missing in the annotated function)")
+fixed("C01", "3ff9a2c", "a collector cycle (and flush(), and the periodic report) never ends while threads keep tracing: the drain passes introduced by d3dd723 were repeated until one found nothing new (liveness rule: more drain passes in one cycle than commands on their way when it began; scenarios S2+w, S8, C01-conc, ...; 12 busy threads: flush() does not return within 10 s in a debug build)")
+fixed("C07", "3ff9a2c", "same defect seen through C07: flush() waits for one collector cycle, and that cycle did not end while other threads kept sending commands (scenarios S13+w and others)")
 
 # K1: attachments to a span that has several parents in ONE trace
 K1 = ("attachment to a span created with several parents that belong to the same trace: the span is delivered once per parent, "
